@@ -108,6 +108,10 @@ def jobs_for(prop, tier):
             jobs.append({"engine": "S", "prop": prop, "label": sp.label() + "#" + _h(sp), "spec": sp.to_json(), "caps": ccaps})
     elif prop in F_FAMILIES:
         jobs = f_jobs(prop, tier)
+    if prop == "C05":
+        for cap in ((1, 2) if q else (1, 2, 3)):
+            jobs.append({"engine": "PRS", "prop": prop, "label": "prs(cap=%d)" % cap, "cap": cap, "live": 2 if q else 3,
+                         "prios": [0, 1] if q else [-1, 0, 1]})
     if prop == "C20":
         # store / edge level: every well-formed call and kernel step, also between the kernel events of one instant
         scaps = {"max_states": 8000 if q else 200000, "max_seconds": 900 if q else 3000}
@@ -206,6 +210,9 @@ def run_job(job, seed):
         d["engine"] = "S"
         d["label"] = job["label"]
         return d
+    if job["engine"] == "PRS":
+        from . import prs
+        return prs.explore(job["cap"], job["live"], job["prios"])
     if job["engine"] == "C19":
         from . import c19
         return c19.run(job["tier"], seed)
@@ -287,6 +294,13 @@ def selftest(prop, tier, results, ev):
 
 def replay_file(path):
     v = json.load(open(path))
+    if v.get("kind") == "prs":
+        from . import prs
+        w, viol = prs.replay(v["prs_cap"], v["history"])
+        for x in viol:
+            print("VIOLATION property=C05 replay=%s" % path)
+            print("  #", x["clause"], "|", x["detail"])
+        return 1 if viol else 0
     if v.get("engine", "S") == "S":
         sp = Spec.from_json(v["spec"])
         prop = v["property"]
